@@ -527,7 +527,6 @@ S("seed-C06-a", ["C06"], "seeded/C06-a/patch.diff", [("C06", "C06-R4", "_to_u?in
 S("seed-C07-a", ["C07"], "seeded/C07-a/patch.diff", [("C07", "C07-R4b", "finally-scope")])
 S("seed-C07-b", ["C07"], "seeded/C07-b/patch.diff", [("C07", "C07-R2c", "TRY_START")])
 S("seed-C08-a", ["C08"], "seeded/C08-a/patch.diff", [("C08", "C08-R7", "_chain")])
-S("seed-C09-a", ["C09"], "seeded/C09-a/patch.diff", [("C09", "C09-R4", "snapshots")], note="obsolete: the sub-matcher it slipped on was removed by repo commit 7133da3 (see NOTES.md); skipped")
 S("seed-C10-a", ["C10"], "seeded/C10-a/patch.diff", [("C10", "C10-R2a", "matcher-loop")])
 S("seed-C11-a", ["C11"], "seeded/C11-a/patch.diff", [("C11", "C11-R5b", "seen-set-scope")])
 S("seed-C12-a", ["C12"], "seeded/C12-a/patch.diff", [("C12", "C12-R3", "_current_vm|_vm")])
@@ -674,8 +673,8 @@ M("fp-regex-class-char-no-advance", ["C10"], RPA,
   "            # Literal escape\n            return escaped\n\n        return ch\n",
   [("C10", "C10-R5", "_parse_char_class:while")])
 M("fp-regex-index-loop-stalls", ["C10"], RPA,
-  "        while i < len(self.pattern) and self.pattern[i].isdigit():\n            i += 1\n        if i == self.pos + 1:",
-  "        while i < len(self.pattern) and self.pattern[i].isdigit():\n            i += 0\n        if i == self.pos + 1:",
+  "        while i < len(self.pattern) and _is_digit(self.pattern[i]):\n            i += 1\n        if i == self.pos + 1:",
+  "        while i < len(self.pattern) and _is_digit(self.pattern[i]):\n            i += 0\n        if i == self.pos + 1:",
   [("C10", "C10-R5", "_is_quantifier_start:while")])
 T("t-fp-lexer-length-spelled-out", ["C04"], LX,
   "        while self.pos < self.length:\n            ch = self._current()\n\n            # Whitespace",
@@ -693,7 +692,6 @@ S("seed-C10-b", ["C10"], "seeded/C10-b/patch.diff", [("C10", "C10-R5", "_count_c
 S("seed-C17-b", ["C17"], "seeded/C17-b/patch.diff", [("C17", "C17-R10", "reduce_fn:alias-across-callback")], silent=["C04"], note="local alias of arr._elements kept across the callback")
 S("seed-C03-b", ["C03"], "seeded/C03-b/patch.diff", [("C03", "C03-R7", "handle_replacement")], note="capture groups passed to the replacer un-normalised (None)")
 S("seed-C08-b", ["C08"], "seeded/C08-b/patch.diff", [("C08", "C08-R8", "_execute_opcode:typeof")], note="typeof-based objectness test accepts null")
-S("seed-C15-b", ["C15"], "seeded/C15-b/patch.diff", [("C15", "C15-R1c", "transfer:js_func._closure_cells")], note="child closure reuses the parent's cell list: positions follow two different list(set) orders")
 M("c15-cells-indexed-by-wrong-table", ["C05"], VM,
   "                            idx = frame.func.free_vars.index(var_name)\n                            closure_cells.append(frame.closure_cells[idx])",
   "                            idx = compiled_func.free_vars.index(var_name)\n                            closure_cells.append(frame.closure_cells[idx])",
@@ -777,3 +775,27 @@ TP("t-parser-mark-reset", ALL_PROPS, "selftest/patches/t-parser-mark-reset.diff"
    note="look-ahead through _mark()/_reset(mark) helpers, restored on the handler path too (the repaired form of seed C13-b)")
 TP("t-conversion-guard-contextmanager", ALL_PROPS, "selftest/patches/t-conversion-guard-contextmanager.diff",
    note="the cycle/depth guard of the boundary converters as a try/finally context manager over an identity-keyed dict (the repaired form of seed C11-b)")
+TP("t-compiler-one-jump-emitter", ALL_PROPS, "selftest/patches/t-compiler-one-jump-emitter.diff",
+   note="every jump (also the loops' back edges) goes through _emit_jump, which range-checks a known target (the repaired form of seed C14-b)")
+# wave 4 (written against the tree of fix cceea8f)
+S("seed-C01-c", ["C01"], "seeded/C01-c/patch.diff", [("C01", "C01-R2", "TimeLimitError")], note="instruction counter advanced by more than one: the modulo-gated clock poll can be skipped for ever")
+S("seed-C04-b", ["C04"], "seeded/C04-b/patch.diff", [("C04", "C04-R8", "_lookahead")], note="look-ahead context manager restores after a bare yield")
+S("seed-C06-b", ["C06"], "seeded/C06-b/patch.diff", [("C06", "C06-R8", "bool")], note="host bool() of a possibly-NaN float in the conditional jumps")
+S("seed-C09-c", ["C09"], "seeded/C09-c/patch.diff", [("C09", "C09-R4", "")], note="choice points keep the live register list")
+S("seed-C11-b", ["C11"], "seeded/C11-b/patch.diff", [("C11", "C11-R6", "_descend")], silent=["C15", "C02"], note="conversion guard as a context manager without try/finally")
+S("seed-C13-b", ["C13"], "seeded/C13-b/patch.diff", [("C13", "C13-R7", "_is_arrow_function_params")], note="early return on the handler path skips the cursor restore")
+S("seed-C14-b", ["C14"], "seeded/C14-b/patch.diff", [("C14", "C14-R1", "_emit_jump")], silent=["C02", "C05", "C04"], note="known jump targets written unchecked")
+S("seed-C15-c", ["C15"], "seeded/C15-c/patch.diff", [("C15", "C15-R1", "own_keys")], note="accessor names listed in set order")
+S("seed-C16-b", ["C16"], "seeded/C16-b/patch.diff", [("C16", "C16-R5", "charAt/charCodeAt")], note="charCodeAt clamps where charAt tests")
+S("seed-C18-b", ["C18"], "seeded/C18-b/patch.diff", [("C18", "C18-R6", "to_string")], note="integral floats printed through int()")
+M("c16-startswith-negative-slice", ["C16"], VM,
+  "            pos = min(max(pos, 0), len(s))  # clamped, not relative to the end\n            return s[pos:].startswith(search)\n",
+  "            return s[pos:].startswith(search)\n",
+  [("C16", "C16-R4", "startsWith")], note="fix 7bdc03d reverted for startsWith")
+M("c18-tostring-host-spelling", ["C18"], VM,
+  "            if radix == 10:\n                return to_string(n)\n",
+  "            if radix == 10:\n                if isinstance(n, float) and n.is_integer():\n                    return str(int(n))\n                return str(n)\n",
+  [("C18", "C18-R6", "toString")], note="fix 481c111 reverted")
+M("c01-counter-jumps", ["C01"], VM,
+  "        self.instruction_count += 1\n", "        self.instruction_count += 1 + len(self.call_stack) // 64\n",
+  [("C01", "C01-R2", "TimeLimitError")], note="non-unit step of the poll counter inside the limit check itself")
